@@ -46,24 +46,28 @@ func (l *DNSNameHyphenInSLD) CheckApplies(c *x509.Certificate) bool {
 }
 
 func (l *DNSNameHyphenInSLD) Execute(c *x509.Certificate) *lint.LintResult {
+	sawParseError := false
 	if c.Subject.CommonName != "" && !util.CommonNameIsIP(c) {
 		domainInfo := c.GetParsedSubjectCommonName(false)
 		if domainInfo.ParseError != nil {
-			return &lint.LintResult{Status: lint.NA}
-		}
-		if strings.HasPrefix(domainInfo.ParsedDomain.SLD, "-") || strings.HasSuffix(domainInfo.ParsedDomain.SLD, "-") {
+			sawParseError = true
+		} else if strings.HasPrefix(domainInfo.ParsedDomain.SLD, "-") || strings.HasSuffix(domainInfo.ParsedDomain.SLD, "-") {
 			return &lint.LintResult{Status: lint.Error}
 		}
 	}
 	parsedSANDNSNames := c.GetParsedDNSNames(false)
 	for i := range c.GetParsedDNSNames(false) {
 		if parsedSANDNSNames[i].ParseError != nil {
-			return &lint.LintResult{Status: lint.NA}
+			sawParseError = true
+			continue
 		}
 		if strings.HasPrefix(parsedSANDNSNames[i].ParsedDomain.SLD, "-") ||
 			strings.HasSuffix(parsedSANDNSNames[i].ParsedDomain.SLD, "-") {
 			return &lint.LintResult{Status: lint.Error}
 		}
+	}
+	if sawParseError {
+		return &lint.LintResult{Status: lint.NA}
 	}
 	return &lint.LintResult{Status: lint.Pass}
 }
